@@ -50,7 +50,8 @@ Qed.
 
 (* ---------------------------------------------------------------- the diff theorems, unconditionally *)
 
-Theorem diff_hunks_rel x y : exists hs, diff_hunks x y = Ok hs /\ hunks_rel 0 0 x y hs.
+Theorem diff_hunks_rel x y :
+  exists hs, diff_hunks x y = Ok hs /\ hunks_rel 0 0 x y hs /\ Forall (hunk_ctx_ok x y) hs.
 Proof. apply diff_hunks_rel_partial. apply tgs_ok_true. Qed.
 
 Theorem diff_no_panic : forall x y, exists hs, diff_hunks x y = Ok hs.
